@@ -66,9 +66,11 @@ def main(run):
                                             for r in (0, 1, 2, 5))))
     if run.tier == "thorough":
         n = 5
-        run.prove(f"unrolled[n={n},r=0]", S.sc_sam, {"n": n, "reps": 0})
+        fb5 = (lambda: all(run.bounded_run(f"fallback.sam[n=5,r={r}]", S.sc_sam_cut, {"n": 5}, bounded_inputs(run, 5, 40, reps=r),
+                                           bound="40 seeded SAM games x K") for r in (0, 1, 2, 3, 10, 100)))
+        run.prove(f"unrolled[n={n},r=0]", S.sc_sam, {"n": n, "reps": 0}, fallback=fb5)
         for mode in ("iter", "exit"):
-            run.prove(f"all_counts.{mode}[n={n}]", S.sc_sam_cut, {"n": n, "mode": mode}, pkg=cut)
+            run.prove(f"all_counts.{mode}[n={n}]", S.sc_sam_cut, {"n": n, "mode": mode}, pkg=cut, fallback=fb5)
     for key in ("sam_apx_1", "sam_apx_10", "sam_apx_100", "sam_apx_1000"):
         run.prove(f"registry[{key}]", S.sc_sam_registry, {"n": 3, "key": key})
     run.rewrite_hits = dict(cut.hits)
